@@ -10,8 +10,10 @@
 #include <gatery/hlim/coreNodes/Node_Signal.h>
 #include <gatery/hlim/coreNodes/Node_Constant.h>
 #include <gatery/hlim/coreNodes/Node_Pin.h>
+#include <gatery/hlim/coreNodes/Node_Compare.h>
 #include "common.h"
 #include <iostream>
+#include <set>
 #include <map>
 #include <algorithm>
 
@@ -19,13 +21,15 @@ using namespace gtry;
 using namespace gtry::hlim;
 using vh::Rng;
 
-enum Kind { LEAF, C0, C1, CX, NOT, AND, SIG, OR };
+enum Kind { LEAF, C0, C1, CX, NOT, AND, SIG, OR, CMP }; // CMP: a = vector index (0/1), b = 3-bit constant, atom `vec == const`
 struct Desc { Kind k; int a = -1, b = -1; };
 
 struct Net {
 	Circuit circuit;
 	std::vector<BaseNode*> nodes;
 	std::map<BaseNode*, int> idx;
+	Node_Pin *vecPin[2] = {nullptr, nullptr};
+	std::set<BaseNode*> helper;   // shared 3-bit vectors compared with constants (comparison atoms)
 
 	NodePort port(int i) { return i < 0 ? NodePort{} : NodePort{.node = nodes[i], .port = 0}; }
 
@@ -39,16 +43,26 @@ struct Net {
 			case NOT: { auto *l = circuit.createNode<Node_Logic>(Node_Logic::NOT); if (d.a >= 0) l->connectInput(0, port(d.a)); n = l; } break;
 			case AND: { auto *l = circuit.createNode<Node_Logic>(Node_Logic::AND); if (d.a >= 0) l->connectInput(0, port(d.a)); if (d.b >= 0) l->connectInput(1, port(d.b)); n = l; } break;
 			case OR: { auto *l = circuit.createNode<Node_Logic>(Node_Logic::OR); if (d.a >= 0) l->connectInput(0, port(d.a)); if (d.b >= 0) l->connectInput(1, port(d.b)); n = l; } break;
+			case CMP: {
+				if (!vecPin[d.a]) { vecPin[d.a] = circuit.createNode<Node_Pin>(true, false, false); vecPin[d.a]->setWidth(3); vecPin[d.a]->moveToGroup(circuit.getRootNodeGroup()); }
+				sim::DefaultBitVectorState v; v.resize(3); v.setRange(sim::DefaultConfig::DEFINED, 0, 3); v.insertNonStraddling(sim::DefaultConfig::VALUE, 0, 3, (uint64_t) d.b);
+				auto *k = circuit.createNode<Node_Constant>(v, ConnectionType::BITVEC); k->moveToGroup(circuit.getRootNodeGroup());
+				auto *c = circuit.createNode<Node_Compare>(Node_Compare::EQ);
+				bool constLeft = (d.b & 1) != 0; // either operand order
+				c->connectInput(constLeft ? 1 : 0, {.node = vecPin[d.a], .port = 0}); c->connectInput(constLeft ? 0 : 1, {.node = k, .port = 0});
+				n = c;
+			} break;
 			case SIG: { auto *s = circuit.createNode<Node_Signal>(); s->setConnectionType({.type = ConnectionType::BOOL, .width = 1}); if (d.a >= 0) s->connectInput(port(d.a)); n = s; } break;
 		}
 		n->moveToGroup(circuit.getRootNodeGroup());
 		idx[n] = (int) nodes.size();
 		nodes.push_back(n);
-		static const char *names[] = {"leaf", "c0", "c1", "cx", "not", "and", "sig", "or"};
+		if (d.k == CMP) for (size_t i = 0; i < 2; i++) helper.insert(n->getDriver(i).node); // the vector pin and the constant are not nodes of the protocol
+		static const char *names[] = {"leaf", "c0", "c1", "cx", "not", "and", "sig", "or", "cmp"};
 		o << "n " << nodes.size() - 1 << ' ' << names[d.k];
 		auto pr = [&](int x) { if (x < 0) o << " -"; else o << ' ' << x; };
 		if (d.k == NOT || d.k == SIG) pr(d.a);
-		if (d.k == AND || d.k == OR) { pr(d.a); pr(d.b); }
+		if (d.k == AND || d.k == OR || d.k == CMP) { pr(d.a); pr(d.b); }
 		o << '\n';
 	}
 
@@ -56,7 +70,7 @@ struct Net {
 	void dumpNew(std::ostream &o) {
 		for (auto &up : circuit.getNodes()) {
 			BaseNode *n = up.get();
-			if (idx.count(n)) continue;
+			if (idx.count(n) || helper.count(n)) continue;
 			idx[n] = (int) nodes.size();
 			nodes.push_back(n);
 			auto in = [&](size_t i) -> std::string { auto d = n->getDriver(i); if (!d.node) return "-"; return std::to_string(idx.at(d.node)); };
@@ -151,7 +165,11 @@ int main(int argc, char **argv) {
 		unsigned pSig = (unsigned) rng.below(4);        // how many signal nodes
 		unsigned pUnconn = rng.chance(1, 6) ? 1 : 0;   // unconnected inputs only in some cases
 		for (size_t i = 0; i < n; i++) {
-			if (i < nLeaves) { descs.push_back({LEAF}); continue; }
+			if (i < nLeaves) {
+				if (mode == 2 && rng.chance(1, 2)) descs.push_back({CMP, (int) rng.below(rng.chance(3, 4) ? 1 : 2), (int) rng.below(rng.chance(1, 2) ? 3 : 8)}); // few vectors, few constants: related atoms
+				else descs.push_back({LEAF});
+				continue;
+			}
 			auto child = [&]() -> int { if (pUnconn && rng.chance(1, 12)) return -1; // bias to recent nodes for depth
 				return rng.chance(1, 2) ? (int) rng.below(i) : (int) (i - 1 - rng.below(std::min<size_t>(i, 3))); };
 			unsigned c = (unsigned) rng.below(100);
@@ -163,6 +181,7 @@ int main(int argc, char **argv) {
 			else if (c < 96) descs.push_back({C1});
 			else if (c < 98) descs.push_back({C0});
 			else if (c < 99) descs.push_back({CX});
+			else if (mode == 2 && rng.chance(1, 2)) descs.push_back({CMP, (int) rng.below(2), (int) rng.below(8)});
 			else descs.push_back({LEAF});
 		}
 		std::vector<int> roots;
